@@ -318,7 +318,21 @@ fn main() {
     let b = run_history(&cx, &probe);
     let fmt = |x: &(Vec<StepObs>, String)| format!("{:?}{}", x.0.iter().map(|s| s.problems.clone()).collect::<Vec<_>>(), x.1);
     if fmt(&a) != fmt(&b) {
-        vcommon::result::machinery("determinism gate failed: the same history gave different observations");
+        // two runs of one history disagree. When either of them saw the subject break the property, that is the finding (a
+        // subject that breaks it only now and then is still breaking it); only two *clean* but different runs mean the
+        // harness does not own the schedule
+        let mut reported = false;
+        for (run, x) in [(1, &a), (2, &b)] {
+            for (i, o) in x.0.iter().enumerate() {
+                for (k, what) in &o.problems {
+                    res.violation(k, &format!("determinism probe, run {run}, step {}: {}", i + 1, what), json!({"history": probe.iter().map(|o| format!("{:?}", o)).collect::<Vec<_>>(), "note": "the same history gave different observations in two runs"}));
+                    reported = true;
+                }
+            }
+        }
+        if !reported {
+            vcommon::result::machinery("determinism gate failed: the same history gave different observations");
+        }
     }
 
     // ---- BFS over histories, dedup on (model state, kernel map content, number of requests made on open conns capped)
